@@ -1,8 +1,7 @@
-// C10 / C05 -- OBSERVED, NOT REPAIRED, outside every unit (Btree::balance / split with overflow
-// cells: 800 lines over pager-backed raw-pointer pages).  Nine INSERTs of rows between 100 and
-// 20000 bytes leave the table's tree in a state where a full scan indexes a page's slot array out
-// of bounds (storage/core/buffer.rs get_cell_at) and panics the worker.  Goes into
-// crates/axmos-db/src/tests/mod.rs; FAILS on the pinned tree and on the repaired tree.
+// C10 / C16 -- Btree::get_left_most read `cell(0)` of every page on its way down.  A split around one
+// large cell leaves an interior page with ZERO cells and only its right child: the next full scan of
+// the table indexed the slot array out of bounds (storage/core/buffer.rs get_cell_at) and panicked
+// the worker.  Goes into crates/axmos-db/src/tests/mod.rs; FAILS before the fix.
 #[test]
 fn c10_full_scan_after_large_row_inserts() {
     let db = TestDb::new();
